@@ -122,6 +122,22 @@ def family_C13(E=None):
         mk(f'map n={n}', 'map(xs, \\k -> k * 2 - 1)', 'r := []; for (e <- xs) r append= e * 2 - 1; r', n)
         mk(f'filter n={n}', 'filter(xs, \\k -> k > 0)', 'r := []; for (e <- xs) (if (e > 0) r append= e); r', n)
         mk(f'group by relation n={n}', 'group(xs, \\p, q -> q == p + 1)', 'gs := []; cur := []; for (e <- xs) (if (len(cur) == 0) (cur = [e]) else (if (e == cur[-1] + 1) (cur append= e) else (gs append= cur; cur = [e]))); if (len(cur) > 0) gs append= cur; gs', n)
+    # more of the library, each against its specification in noulith
+    structs2 = dict(structs, first=Adt('First', None, []), last=Adt('Last', None, []), count=Adt('Count', None, []), scan=Adt('Scan', None, []))
+    reg2 = reg + ('take', 'drop', 'find?', 'flat_map')
+    def mk2(name, a, b, n=3):
+        P.append((name, a, b, dict(n=n, registered=reg2, structs=structs2)))
+    for n in (0, 1, 2, 3):
+        mk2(f'take count n={n}', 'take(xs, 2)', 'r := []; for (e <- xs) (if (len(r) < 2) r append= e); r', n)
+        mk2(f'drop count n={n}', 'drop(xs, 1)', 'r := []; k := 0; for (e <- xs) (if (k >= 1) r append= e; k += 1); r', n)
+        mk2(f'take while n={n}', 'take(xs, \\k -> k > 0)', 'r := []; ok := 1; for (e <- xs) (if (ok) (if (e > 0) r append= e else ok = 0)); r', n)
+        mk2(f'count predicate n={n}', 'count(xs, \\k -> k > 0)', 'c := 0; for (e <- xs) (if (e > 0) c += 1); c', n)
+        mk2(f'count value n={n}', 'count(xs, y)', 'c := 0; for (e <- xs) (if (e == y) c += 1); c', n)
+        mk2(f'find? n={n}', 'xs find? (\\k -> k > y)', 'r := null; done := 0; for (e <- xs) (if ((done == 0) and e > y) (r = e; done = 1)); r', n)
+        mk2(f'flat_map n={n}', 'flat_map(xs, \\k -> [k, k * 2])', 'r := []; for (e <- xs) (r append= e; r append= e * 2); r', n)
+    for n in (1, 2, 3):
+        mk2(f'first n={n}', 'first(xs)', 'xs[0]', n); mk2(f'last n={n}', 'last(xs)', 'xs[-1]', n)
+        mk2(f'scan n={n}', 'scan(xs, \\p, q -> p * 2 - q)', 'r := [xs[0]]; acc := xs[0]; for (e <- xs[1:]) (acc = acc * 2 - e; r append= acc); r', n)
     for n in (1, 2, 3):
         mk(f'fold n={n}', 'fold(xs, \\p, q -> p * 2 - q)', 'acc := xs[0]; for (e <- xs[1:]) acc = acc * 2 - e; acc', n)
         for reps in (('Small', 'Big', 'Small'), ('Big', 'Small', 'Big')):
